@@ -23,6 +23,7 @@ def check(ctx):
     from . import core9
 
     core9.scheduler_consults_order(ctx, "C09")
+    core9.module_connector(ctx, "C09")
 
 
 MUTANTS = [
